@@ -246,12 +246,17 @@ def main(ctx: Ctx):
     n = 120 if ctx.tier == "quick" else 20000
     for i in range(n):
         dtype = torch.float64 if i % 3 else torch.float32
-        m = rng.choice([2, 2, 3, 3, 4]) if ctx.tier == "quick" else rng.choice([2, 3, 3, 4, 4])
+        m = rng.choice([1, 2, 2, 3, 3, 4]) if ctx.tier == "quick" else rng.choice([1, 2, 3, 3, 4, 4])
         ncol = rng.choice([1, 2, 3, 4, 6])
         J = m_int(rng, m, ncol, kind=rng.choice(["plain", "plain", "dup", "lowrank"]))
         if all(v == 0 for r in J for v in r):
             continue
         check_mgda(ctx, J, dtype)
+        if i % 3 == 1:
+            # the definitions are scale-free: small (and large) gradients must satisfy them just the same
+            k = rng.choice([-40, -17, -12, 20])
+            ctx.count("mgda_scaled", f"2^{k}")
+            check_mgda(ctx, [[v * Fr(2) ** k for v in r] for r in J], dtype)
         if i % 2 == 0 or m <= 3:
             check_pcgrad(ctx, J, torch.float64)
         check_graddrop(ctx, J, dtype)
